@@ -99,5 +99,9 @@ void mlog_dump(FILE *f);
 char *mlog_get_line(int n);
 
 
+#ifdef LIBRFN_VERIF
+void mlog_verif_set_count(unsigned int head);
+#endif
+
 /*! @} */
 #endif // RF_MLOG_H_
